@@ -95,6 +95,17 @@
 (define-fun WF ((r (Array Key Bytes))) Bool
   (forall ((s Str) (p Bytes)) (! (wfBindAt r s p) :pattern ((select r (KBind s p))))))
 
+; ---- step relations of C15: definitions, bindings (with their owner) and provider ownership are for life
+(define-fun defsKept ((o (Array Key Bytes)) (n (Array Key Bytes))) Bool
+  (forall ((name Str)) (! (=> (not (= (select o (KDef name)) bnil)) (= (select n (KDef name)) (select o (KDef name)))) :pattern ((select n (KDef name))))))
+(define-fun bindsKept ((o (Array Key Bytes)) (n (Array Key Bytes))) Bool
+  (forall ((s Str) (p Bytes)) (! (=> (bindFound o s p) (and (bindFound n s p) (= (ServiceBinding_Owner (bindOf n s p)) (ServiceBinding_Owner (bindOf o s p)))
+      (= (ServiceBinding_ServiceName (bindOf n s p)) (ServiceBinding_ServiceName (bindOf o s p))) (= (ServiceBinding_Provider (bindOf n s p)) (ServiceBinding_Provider (bindOf o s p)))))
+      :pattern ((select n (KBind s p))))))
+(define-fun ownersKept ((o (Array Key Bytes)) (n (Array Key Bytes))) Bool
+  (forall ((p Bytes)) (! (=> (not (= (select o (KOwner p)) bnil)) (= (select n (KOwner p)) (select o (KOwner p)))) :pattern ((select n (KOwner p))))))
+(define-fun forLife ((o (Array Key Bytes)) (n (Array Key Bytes))) Bool (and (defsKept o n) (bindsKept o n) (ownersKept o n)))
+
 ; ---- aggregates: uninterpreted with their point-update law
 (define-fun emptyVal () Bytes (bbuf (bzeros 0) 0 0))
 (define-fun depositAcc () Bytes (modAddr strlit_depositAcc))
@@ -241,9 +252,9 @@
   (=> (isActive r rid) (not (= (select r (KActB (reqSvc r rid) (reqProv r rid) (reqExp r rid) rid)) bnil))))
 (define-fun idxBOK ((r (Array Key Bytes)) (s Str) (p Bytes) (h Int) (rid Bytes)) Bool
   (=> (not (= (select r (KActB s p h rid)) bnil)) (and (isActive r rid) (= (reqSvc r rid) s) (= (reqProv r rid) p) (= (reqExp r rid) h))))
-(define-fun idxInv ((r (Array Key Bytes))) Bool
-  (and (forall ((rid Bytes)) (! (idxOK r rid) :pattern ((select r (KActID rid)))))
-       (forall ((s Str) (p Bytes) (h Int) (rid Bytes)) (! (idxBOK r s p h rid) :pattern ((select r (KActB s p h rid)))))))
+(define-fun idxAllA ((r (Array Key Bytes))) Bool (forall ((rid Bytes)) (! (idxOK r rid) :pattern ((select r (KActID rid))))))
+(define-fun idxAllB ((r (Array Key Bytes))) Bool (forall ((s Str) (p Bytes) (h Int) (rid Bytes)) (! (idxBOK r s p h rid) :pattern ((select r (KActB s p h rid))))))
+(define-fun idxInv ((r (Array Key Bytes))) Bool (and (idxAllA r) (idxAllB r)))
 (define-fun actInv ((r (Array Key Bytes))) Bool (forall ((rid Bytes)) (! (actOK r rid) :pattern ((select r (KActID rid))))))
 
 ; ---- I_escrow (C01): what the request escrow owes: the fees of the requests still pending plus the earnings not yet withdrawn.
